@@ -55,6 +55,7 @@ class TLCResult:
                   (rc == 0 and "Finished in" in out and "Error:" not in out)
         self.invariant_violated = re.findall(r"Invariant (\S+) is violated", out)
         self.property_violated = ("Temporal properties were violated" in out) or \
+                                 bool(re.search(r"Temporal property \S+ was violated", out)) or \
                                  bool(re.search(r"Action property \S+ is violated", out))
         self.lines = out.splitlines()
 
